@@ -37,6 +37,7 @@ RULE = (
     "+ that kicker's own labels, id and broker only. Invariant after every rule: task.labels equals the declared "
     "snapshot and every recorded send equals the model. Non-trivial: a dictionary with >=3 of the 5 types or >=1 "
     "re-delivery; a history with >=2 sends of one task of which one used with_labels."
+    " Two calls may be in flight concurrently (each delivery wave processed with gather) and the task also reads its Context through a dependency declared use_cache=False that is resolved after an awaiting dependency: it must show this call's labels and task id."
 )
 ASSUMPTIONS = ["deliveries are driven through Receiver.callback directly (timing is irrelevant to C09)",
                "labels of non-primitive types (LabelType.ANY) are outside the property"]
@@ -94,6 +95,8 @@ def roundtrips() -> Any:
         "plan": st.lists(st.sampled_from(["retry", "requeue"]), max_size=3),
         # the observing pre_execute middleware hands on the message it got, or a (shallow / deep) copy of it - a message-replacing middleware
         "mw_returns": st.sampled_from(["same", "same", "copy", "deepcopy"]),
+        # two calls in flight at the same time on one worker (each delivery wave is processed concurrently)
+        "concurrent": st.sampled_from([False, True]),
         # the retry middleware's own control label given by the user in a type of its choice (the middleware reads it with int()):
         # it is a label like any other and keeps value and type on every delivery
         "max_retries": st.sampled_from([None, None, None, {"s": "9"}, {"f": struct.pack(">d", 9.0).hex()}, {"i": "9"}]),
@@ -151,9 +154,20 @@ def run_roundtrip(c: Dict[str, Any]) -> Outcome:
 
         b.add_middlewares(MW(), SimpleRetryMiddleware(default_retry_count=10, default_retry_label=True, no_result_on_retry=False))
 
-        async def t(ctx: Context = TaskiqDepends()) -> Any:
+        async def slow() -> int:
+            await asyncio.sleep(0.001)      # a dependency that needs I/O: other deliveries start meanwhile
+            return 1
+
+        def labels_seen(cx: Context = TaskiqDepends()) -> Any:
+            return (cx.message.task_id, dict(cx.message.labels))
+
+        async def t(ctx: Context = TaskiqDepends(), s_: int = TaskiqDepends(slow), ls: Any = TaskiqDepends(labels_seen, use_cache=False)) -> Any:
             tid = ctx.message.task_id
             runs[tid] = runs.get(tid, 0) + 1
+            if ls[0] != tid:
+                seen.append(("context_in_uncached_dependency[task id %s]" % ls[0], tid, runs[tid], ls[1]))
+            else:
+                seen.append(("context_in_uncached_dependency", tid, runs[tid], ls[1]))
             seen.append(("context", tid, runs[tid], dict(ctx.message.labels)))
             plan = calls[int(tid[1:])]["plan"]
             if runs[tid] <= len(plan):
@@ -168,12 +182,21 @@ def run_roundtrip(c: Dict[str, Any]) -> Outcome:
         for n, cl in enumerate(calls):
             await AsyncKicker("t", b, dict(decl)).with_labels(**cl["extra"]).with_task_id(f"T{n}").kiq()
         deliveries = 0
-        while b.q and deliveries < 20:
-            deliveries += 1
+        async def deliver(m: Any) -> None:
             try:
-                await r.callback(b.q.pop(0).message)
+                await r.callback(m.message)
             except BaseException as e:  # noqa: BLE001
                 escaped.append(f"{type(e).__name__}: {short(e, 200)}")
+
+        while b.q and deliveries < 20:
+            if c.get("concurrent") and len(b.q) > 1:
+                wave = b.q[:]
+                del b.q[:]
+                deliveries += len(wave)
+                await asyncio.gather(*[deliver(m) for m in wave])
+                continue
+            deliveries += 1
+            await deliver(b.q.pop(0))
         results = {}
         for n in range(len(calls)):
             if await b.result_backend.is_result_ready(f"T{n}"):
@@ -214,7 +237,7 @@ def run_roundtrip(c: Dict[str, Any]) -> Outcome:
                                  f"(sent {sorted(want)}; other call(s): {[sorted(x['extra']) for m, x in enumerate(calls) if m != n]})")
     types = {type(v).__name__ for cl in calls for v in {**decl, **cl["extra"]}.values()}
     out.nontrivial = bool(len(types) >= 3 or allplans)
-    out.classes = [c["codec"], f"types={len(types)}", "plan=" + ("+".join(calls[0]["plan"]) or "none")] + sorted("has_" + t for t in types) + (["two_calls"] if len(calls) > 1 else []) + (["message_replacing_middleware"] if c.get("mw_returns", "same") != "same" else [])
+    out.classes = [c["codec"], f"types={len(types)}", "plan=" + ("+".join(calls[0]["plan"]) or "none")] + sorted("has_" + t for t in types) + (["two_calls"] if len(calls) > 1 else []) + (["two_calls_concurrent"] if len(calls) > 1 and c.get("concurrent") else []) + (["message_replacing_middleware"] if c.get("mw_returns", "same") != "same" else [])
     out.trace = {"runs": runs, "deliveries": deliveries}
     return out
 
